@@ -451,6 +451,26 @@ class Region:
         raise AnchorLost("%s: no block `%s` in lines %s" % (self.path, prefix, self.lines()))
 
 
+def _skip_turbofish(src, toks, j):
+    """If toks[j] is the `<` of a turbofish `::<...>`, return the index after the matching `>`."""
+    if src[toks[j][1]:toks[j][2]] != "<" or j < 2:
+        return None
+    if src[toks[j - 1][1]:toks[j - 1][2]] != ":" or src[toks[j - 2][1]:toks[j - 2][2]] != ":":
+        return None
+    depth = 0
+    k = j
+    while k < len(toks):
+        t = src[toks[k][1]:toks[k][2]]
+        if t == "<":
+            depth += 1
+        elif t == ">" and src[toks[k][1] - 1] != "-":
+            depth -= 1
+            if depth == 0:
+                return k + 1
+        k += 1
+    return None
+
+
 def split_arms(src, start, end):
     """Split a match body into arms.  Returns list of dict(pat, guard, body, start, end,
     body_start, body_end, braced)."""
@@ -508,6 +528,10 @@ def split_arms(src, start, end):
                         while j < n and toks[j][1] <= close:
                             j += 1
                         continue
+                    tf = _skip_turbofish(src, toks, j)
+                    if tf is not None:
+                        j = tf
+                        continue
                     if k == "punct" and t == ",":
                         break
                     j += 1
@@ -521,6 +545,10 @@ def split_arms(src, start, end):
                     close = match_close(src, s)
                     while j < n and toks[j][1] <= close:
                         j += 1
+                    continue
+                tf = _skip_turbofish(src, toks, j)
+                if tf is not None:
+                    j = tf
                     continue
                 if k == "punct" and t == ",":
                     break
